@@ -59,8 +59,16 @@ def skeletons_refuse_probe(ctx_, work, rng, nb):
     fails, ntry = [], 0
     for b in range(nb):
         methods = l2obj.gen_methods(rng, 5)
+        # two of them are #[optional] and provided by no implementation side (names x<k>): the call is
+        # refused with the 'invalid request' code, nothing is entered, and the calls that follow are served
+        withobj = [j for j, (nm_, ps_) in enumerate(methods) if any(d_ == "in" and t_ != "uint32" for d_, t_, sh_, pn_ in ps_)] or list(range(len(methods)))
+        for j in (withobj + [j for j in range(len(methods)) if j not in withobj])[:2]:
+            methods[j] = ("x%d" % j, methods[j][1])
         k = len(methods)
-        methods += [("m%d" % k, []), ("m%d" % (k + 1), [("in", "uint32", None, "p0")]), ("m%d" % (k + 2), [("out", "uint32", None, "p0")]), ("m%d" % (k + 3), [])]
+        methods += [("m%d" % k, []), ("m%d" % (k + 1), [("in", "uint32", None, "p0")]), ("m%d" % (k + 2), [("out", "uint32", None, "p0")]), ("m%d" % (k + 3), []),
+                    # optional, not provided, with input objects and outputs of every kind
+                    ("x%d" % (k + 4), [("in", "interface", None, "p0"), ("in", "IFoo", None, "p1"), ("out", "uint32", None, "p2"), ("out", "interface", None, "p3")]),
+                    ("x%d" % (k + 5), [("in", "SO", None, "p0"), ("in", "uint32", None, "p1"), ("out", "SO", None, "p2")])]
         root = os.path.join(work, "refobj%d" % b)
         os.makedirs(root, exist_ok=True)
         open(os.path.join(root, "l2.idl"), "w").write(l2obj.render_idl(methods))
@@ -69,6 +77,20 @@ def skeletons_refuse_probe(ctx_, work, rng, nb):
         r = p_refcount.build(root, methods, sides=p_refcount.SIDES)
         if r.get("stage") != "run":
             continue
+        if r["rc"] != 0:
+            fails.append({"property": ctx_["prop"], "idl": l2obj.render_idl(methods), "observed": (r["out"][-300:] + r["err"][:900]),
+                          "what": "the nine-pairing program faults after refused calls to optional methods nobody provides (exit %s)" % r["rc"]})
+        else:
+            runs_, _ends = p_refcount.parse(r["out"])
+            for (caller_, impl_), recs_ in sorted(runs_.items()):
+                absent_k = {j for j, (nm_, _) in enumerate(methods) if l2obj.is_absent(nm_)}
+                for rec_ in recs_:
+                    if rec_.get("k") in absent_k:
+                        ntry += 1
+                        if rec_["tag"] == "impl" or (rec_["tag"] == "ret" and rec_["ints"].get("status") != 2):
+                            fails.append({"property": ctx_["prop"], "idl": l2obj.render_idl(methods), "pairing": "%s stub -> %s skeleton" % (caller_, impl_),
+                                          "what": "an optional method nobody provides is %s" % ("entered" if rec_["tag"] == "impl" else "answered with status %s, not the invalid-request code 2" % rec_["ints"].get("status"))})
+                            break
         mask = "".join("1" if not ps else "0" for _, ps in methods)
         rc, o, e = vlib.run([os.path.join(root, "l2obj"), "--refuse", str(len(methods)), mask], timeout=120, env=dict(vlib.ENV, ASAN_OPTIONS="detect_leaks=0"))
         side, cur, entered = None, None, False
